@@ -59,3 +59,15 @@ Proof.
   eapply Rle_trans; [apply (fe_error_bound rnd64 u64 eta64w rnd64_error_w u64_nonneg _ env Henv e)|].
   apply Qle_bool_R, Hok.
 Qed.
+
+(** The same with inexact inputs: every input bounded by [b] and known within [d]. *)
+Theorem binary64_error_within_in : forall b d tol es, errs_within_in b d tol es = true ->
+  forall env env', (forall n, Rabs (env n) <= Q2R b) -> (forall n, Rabs (env' n - env n) <= Q2R d) ->
+  forall e, List.In e es -> Rabs (fe_fl rnd64 env' e - fe_exact env e) <= Q2R tol.
+Proof.
+  intros b d tol es Hok env env' Henv Henv' e Hin.
+  unfold errs_within_in in Hok. rewrite List.forallb_forall in Hok. specialize (Hok e Hin).
+  eapply Rle_trans;
+    [apply (fe_error_bound_in rnd64 u64 eta64w rnd64_error_w u64_nonneg (fun _ => b) (fun _ => d) env env' Henv Henv' e)|].
+  apply Qle_bool_R, Hok.
+Qed.
